@@ -880,6 +880,63 @@ impl Family for EpPin {
     }
 }
 
+/// PROMO2: two white pawns on their 7th rank one or two files apart (two apart: both can capture onto
+/// the square between them), a black piece of every kind on each of the squares in front of and
+/// between them that a menu selects, both kings anywhere, one black slider anywhere (pins one of
+/// the pawns). Promotions of different pawns onto one square, legal for one and illegal for the other.
+pub struct Promo2;
+impl Family for Promo2 {
+    fn name(&self) -> String {
+        "PROMO2".into()
+    }
+    fn len(&self) -> u64 {
+        7 * 2 * 5 * 5 * 64 * 64 * 4 * 64
+    }
+    fn decode(&self, mut i: u64) -> Option<Pos> {
+        let mut take = |n: u64| -> u64 {
+            let v = i % n;
+            i /= n;
+            v
+        };
+        let wk = take(64) as u8;
+        let bk = take(64) as u8;
+        let skind = take(4) as usize; // 0 none, 1 rook, 2 bishop, 3 queen
+        let ssq = take(64) as u8;
+        let f = take(7) as i8;
+        let gap = take(2) as i8 + 1;
+        let mid = take(5) as usize; // piece on the 8th rank between / next to the pawns: none n b r q
+        let front = take(5) as usize; // piece in front of the first pawn
+        if skind == 0 && ssq != 0 {
+            return None;
+        }
+        let f2 = f + gap;
+        let mut p = Pos::empty();
+        p.board[sq_at(f, 1)? as usize] = pc(WHITE, PAWN);
+        p.board[sq_at(f2, 1)? as usize] = pc(WHITE, PAWN);
+        let kinds = [EMPTY, pc(BLACK, KNIGHT), pc(BLACK, BISHOP), pc(BLACK, ROOK), pc(BLACK, QUEEN)];
+        // gap 2: the square between the pawns; gap 1: the square in front of the second pawn
+        let mid_sq = if gap == 2 { sq_at(f + 1, 0)? } else { sq_at(f2, 0)? };
+        p.board[mid_sq as usize] = kinds[mid];
+        p.board[sq_at(f, 0)? as usize] = kinds[front];
+        let mut placed: Vec<(u8, u8)> = vec![(wk, pc(WHITE, KING)), (bk, pc(BLACK, KING))];
+        if skind != 0 {
+            placed.push((ssq, pc(BLACK, [ROOK, BISHOP, QUEEN][skind - 1])));
+        }
+        for (sq, piece) in placed {
+            if p.board[sq as usize] != EMPTY {
+                return None;
+            }
+            p.board[sq as usize] = piece;
+        }
+        p.stm = WHITE;
+        if p.is_legal_position() {
+            Some(p)
+        } else {
+            None
+        }
+    }
+}
+
 /// PAWN7: a white pawn on its 7th rank (every file), both kings, one further white piece and one
 /// black piece (every pair of kinds from Q R B N) anywhere, both sides to move: promotions and
 /// under-promotions with something to lose or to win on the way.
